@@ -425,13 +425,18 @@ impl Context {
     /// Convert this `Context` to a JSON value
     pub fn to_json_value(&self) -> Result<serde_json::Value, JsonSerializationError> {
         match self {
-            Self::Value(record) => record
-                .iter()
-                .map(|(k, v)| {
-                    let cjson = CedarValueJson::from_value(v.clone())?;
-                    Ok((k.to_string(), serde_json::to_value(cjson)?))
-                })
-                .collect(),
+            Self::Value(record) => {
+                // the context itself is a record: a reserved key at the top level would be read
+                // back as an escape, exactly like in a nested record
+                crate::entities::json::check_for_reserved_keys(record.keys())?;
+                record
+                    .iter()
+                    .map(|(k, v)| {
+                        let cjson = CedarValueJson::from_value(v.clone())?;
+                        Ok((k.to_string(), serde_json::to_value(cjson)?))
+                    })
+                    .collect()
+            }
             Self::RestrictedResidual(record) => record
                 .iter()
                 .map(|(k, v)| {
